@@ -505,7 +505,8 @@ class Operator:
             )
             with self.timer.getTimer(interactionMessage):
                 interactMethod = getattr(interface, interactMethodName)
-                halt = halt or interactMethod(*args)
+                # call the hook first: a halt requested earlier in the stack must not skip this interface
+                halt = interactMethod(*args) or halt
 
             if self.cs["debugDB"]:
                 self._debugDB(interactionName, interface.name, statePointIndex)
